@@ -283,8 +283,10 @@ class CellWorld:
             return
         else:
             raise AssertionError('unknown event %r' % (ev,))
+        normalise_hidden(cell)
         if cyc:
             self.cycle()
+            normalise_hidden(cell)
 
     def apply_probe(self, idx):
         """C02: submit one probe instance to a dedicated, uncapped allocation
@@ -429,6 +431,17 @@ class CellWorld:
                 tuple(sorted(self.alloc_variant.items())), CLOCK.L)
 
 
+def normalise_hidden(cell):
+    """`IdentityGroup.acquire` pops from a set; CPython's `set.pop` resumes
+    from a hidden per-object cursor, so which identity is handed out depends
+    on the pop/add history of that very object and not on its contents.  The
+    harness owns that nondeterminism (DESIGN 2.1): after every event the set
+    is rebuilt from its sorted contents, which makes the choice a function of
+    the visible state and keeps the canonical key exact."""
+    for grp in cell.identity_groups.values():
+        grp.available = set(sorted(grp.available))
+
+
 def snapshot_cell(cell):
     pre = Pre()
     pre.apps = {
@@ -451,12 +464,23 @@ def _seq(name):
     return int(name.rsplit('#', 1)[1])
 
 
-def canon_cell(cell, tmpl):
+def canon_cell(cell, tmpl, extra_roots=()):
     """Canonical projection of a Cell: every field that steers the scheduler,
     instances renamed to (template, arrival rank)."""
     names = set(cell.apps)
     for srv in cell.members().values():
         names.update(srv.apps)
+
+    def _servers_below(n):
+        if isinstance(n, S.Server):
+            yield n
+        else:
+            for ch in n.children_iter():
+                for x in _servers_below(ch):
+                    yield x
+    for r in extra_roots:
+        for srv in _servers_below(r):
+            names.update(srv.apps)
     rank = {n: i for i, n in enumerate(sorted(names, key=_seq))}
     apps = tuple(
         (tmpl(a.name), rank[a.name], a.server, a.identity, a.priority,
@@ -501,4 +525,7 @@ def canon_cell(cell, tmpl):
                for b in part._reboot_buckets if b.servers))
         for label, part in sorted(cell.partitions.items(),
                                   key=lambda kv: str(kv[0])))
-    return (apps, node(cell), groups, parts)
+    # subtrees the loader knows but that are not part of the cell
+    detached = tuple(sorted((node(r) for r in extra_roots),
+                            key=lambda t: t[1]))
+    return (apps, node(cell), groups, parts, detached)
